@@ -41,7 +41,10 @@ def reset_stage_to_succeeded(stage: StageExecution, end_time: int) -> None:
     stage.status = WorkflowStatus.SUCCEEDED
     stage.end_time = end_time
     for task in stage.tasks:
-        if task.status == WorkflowStatus.RUNNING:
+        # RUNNING: the jump is handled before the CompleteTask(REDIRECT) that
+        # was committed with it. REDIRECT: that CompleteTask was handled first.
+        # Both orders must leave the jumping task SUCCEEDED.
+        if task.status in (WorkflowStatus.RUNNING, WorkflowStatus.REDIRECT):
             task.status = WorkflowStatus.SUCCEEDED
             task.end_time = end_time
 
